@@ -570,6 +570,8 @@ def monitor_agreement(case: dict, outs: dict[str, list[str]]) -> Violation | Non
         for i, (a, b) in enumerate(zip(ref, outs[other])):
             if case["ops"][i]["k"] == "T":
                 continue  # `_terminal_queue` is the in-memory store's private state; SQLite has none
+            if case["ops"][i]["k"] == "L" and sorted(a[5:].split(";")) == sorted(b[5:].split(";")):
+                continue  # the property speaks of which handlers, not of their order (the order is tied to the model, K)
             if a != b:
                 op = case["ops"][i]
                 facts = qfacts(op["q"]) if op["k"] in ("Q", "D") else ""
